@@ -177,7 +177,10 @@ class Edit:
 
 def sel_item(items, sel, trait=None):
     """find item by path selector.  `Type::method` or `name`; for trait impl methods give trait"""
-    cands = [it for it in items if it["path"] == sel and it["kind"] in ("fn", "impl_fn", "struct", "enum", "const", "static", "type")]
+    def norm(p):
+        # strip generic arguments of the self type:  PrivilegeGroup<T>::new -> PrivilegeGroup::new
+        return re.sub(r"<[^:]*>(?=::|$)", "", p)
+    cands = [it for it in items if (it["path"] == sel or norm(it["path"]) == sel) and it["kind"] in ("fn", "impl_fn", "struct", "enum", "const", "static", "type")]
     if trait is not None:
         cands = [it for it in cands if (it.get("trait") or "") == trait]
     elif len(cands) > 1:
@@ -363,6 +366,78 @@ def sha(b):
     return hashlib.sha256(b).hexdigest()[:16]
 
 
+def find_lazy_static(data, items, name):
+    """T6: locate `static ref NAME: TY = EXPR;` inside a lazy_static! block; returns (ty, expr, abs_start, abs_end)"""
+    for it in items:
+        if it["kind"] != "macro" or not it["path"].endswith("lazy_static"):
+            continue
+        body = data[it["body"]["start"]:it["body"]["end"]].decode()
+        m = re.search(r"static\s+ref\s+" + re.escape(name) + r"\s*:\s*", body)
+        if not m:
+            continue
+        i = m.end()
+        depth = 0
+        ty_end = None
+        while i < len(body):
+            c = body[i]
+            if c in "<([{":
+                depth += 1
+            elif c in ">)]}":
+                depth -= 1
+            elif c == "=" and depth == 0:
+                ty_end = i
+                break
+            i += 1
+        if ty_end is None:
+            continue
+        j = ty_end + 1
+        depth = 0
+        instr = False
+        while j < len(body):
+            c = body[j]
+            if instr:
+                if c == "\\":
+                    j += 1
+                elif c == '"':
+                    instr = False
+            elif c == '"':
+                instr = True
+            elif c in "([{":
+                depth += 1
+            elif c in ")]}":
+                depth -= 1
+            elif c == ";" and depth == 0:
+                break
+            j += 1
+        ty = body[m.end():ty_end].strip()
+        expr = body[ty_end + 1:j].strip()
+        return ty, expr, it["body"]["start"] + m.start(), it["body"]["start"] + j + 1
+    raise Undecided("lost anchor: lazy_static `%s` not found" % name)
+
+
+LAZY_TMPL = """pub struct VxLazy_%(n)s {}
+exec static %(n)s: VxLazy_%(n)s = VxLazy_%(n)s {};
+pub open spec fn vx_lit_%(n)s() -> Seq<char> { "%(lit)s"@ }
+impl std::ops::Deref for VxLazy_%(n)s {
+    type Target = Arc<String>;
+    #[verifier::external_body]
+    fn deref(&self) -> (r: &Arc<String>)
+        ensures (**r)@ == vx_lit_%(n)s()
+    { unimplemented!() }
+}
+"""
+
+
+def emit_lazy_static(name, ty, expr, tlog):
+    """T6: a lazy_static of an Arc<String> literal becomes a static with a Deref whose contract is the literal"""
+    m = re.match(r'^Arc::new\(\s*"((?:[^"\\]|\\.)*)"\s*\.\s*(?:to_string|to_owned)\(\)\s*\)$', expr)
+    if not (m and re.sub(r"\s", "", ty) == "Arc<String>"):
+        raise Undecided("T6: unsupported lazy_static initialiser for %s: %s = %s" % (name, ty, expr))
+    lit = m.group(1)
+    tlog.append({"t": "T6", "item": name, "note": "lazy_static literal %r modelled as a static with Deref contract" % lit})
+    return (LAZY_TMPL % {"n": name, "lit": lit}).encode()
+
+
 def assemble_unit(unit_dir, repo=None, canary=False):
     """returns dict(text, manifest, transformations, fn_lines, unit)"""
     repo = repo or REPO
@@ -382,6 +457,14 @@ def assemble_unit(unit_dir, repo=None, canary=False):
     for sp in unit.get("spec", []):
         p = os.path.join(unit_dir, sp)
         pieces.append("// ---- spec %s ----\n" % sp + open(p).read() + "\n")
+    for et in unit.get("expect_text", []):
+        # the hand-written model of a macro-generated item is only valid while the macro input is unchanged
+        pth = os.path.join(repo, et["file"])
+        txt = open(pth).read() if os.path.exists(pth) else ""
+        norm = lambda x: re.sub(r"\s+", " ", x)
+        if norm(et["contains"]) not in norm(txt):
+            raise Undecided("model out of date: %s no longer contains `%s` (%s)" % (et["file"], et["contains"], et.get("why", "")))
+        tlog.append({"t": "T6", "item": et["file"], "note": "macro input checked verbatim: " + et["contains"][:60]})
     used_items = set()
     canary_fns = []
     body = []
@@ -394,6 +477,19 @@ def assemble_unit(unit_dir, repo=None, canary=False):
         for sel in src["items"]:
             trait = None
             ckey = sel
+            if sel.startswith("lazy_static:"):
+                nm = sel.split(":", 1)[1]
+                ty, expr, a, b = find_lazy_static(data, items, nm)
+                if cur_impl is not None:
+                    body.append(b"}\n")
+                    cur_impl = None
+                raw = data[a:b]
+                body.append(("// ---- lazy_static %s [%s:%d..%d sha %s]\n" % (nm, src["file"], a, b, sha(raw))).encode())
+                body.append(emit_lazy_static(nm, ty, expr, tlog))
+                manifest.append({"item": sel, "kind": "lazy_static", "file": src["file"], "span": [a, b],
+                                 "sha256_16": sha(raw), "anchors": [], "external": False})
+                used_items.add(ckey)
+                continue
             m = re.match(r"^<(.+) for (.+)>::(\w+)$", sel)
             if m:
                 trait = m.group(1)
@@ -404,6 +500,10 @@ def assemble_unit(unit_dir, repo=None, canary=False):
             used_items.add(ckey)
             if it["kind"] == "impl_fn":
                 hdr = "impl%s %s" % ((it.get("impl_generics") or ""), it["self_ty"])
+                if trait is None:
+                    for im in items:
+                        if im["kind"] == "impl" and im["start"] == it.get("impl_start") and not im.get("trait"):
+                            hdr = im["header"].strip()
                 if cur_impl != hdr:
                     if cur_impl is not None:
                         body.append(b"}\n")
